@@ -42,6 +42,8 @@ func init() {
 				add("hashmap-s1-mmap-k3", merge(base, p("k", 3, "ops", opPut|opDelete, "index", 3, "shards", 1, "io", 1)))
 				add("hashmap-s1-batch-k2", merge(base, p("k", 2, "ops", opPut|opDelete|opBatch, "bmax", 2, "index", 3, "shards", 1, "vlens", 2)))
 				add("btree-s1-merge-k3", merge(base, p("k", 3, "ops", opPut|opDelete|opMerge, "index", 1, "shards", 1)))
+				add("skiplist-s1-sync-always-k3", merge(base, p("k", 3, "ops", opPut|opDelete, "index", 2, "shards", 1, "sync", 1, "vlens", 2)))
+				add("btree-s3-sync-threshold-mmap-k2", merge(base, p("k", 2, "ops", opPut|opDelete, "index", 1, "shards", 3, "sync", 2, "io", 1, "vlens", 2)))
 			} else {
 				for idx := 1; idx <= 3; idx++ {
 					for _, sh := range []int{1, 2, 3} {
